@@ -37,7 +37,7 @@ func (x *Run) assumeType(st *State, v Val) {
 	}
 	switch u := types.Unalias(v.Ty).Underlying().(type) {
 	case *types.Slice:
-		st.assume(fmt.Sprintf("(>= (slen_%s %s) 0)", v.S, v.T))
+		st.assume(fmt.Sprintf("(and (>= (slen_%s %s) 0) (<= (slen_%s %s) 9223372036854775807))", v.S, v.T, v.S, v.T))
 		_ = u
 	}
 }
@@ -406,11 +406,17 @@ func (x *Run) mapArrs(mt *types.Map) mapArrs {
 	x.arrSort(m.dom, Sort(fmt.Sprintf("(Array Int (Array %s Bool))", ks)))
 	x.arrSort(m.val, Sort(fmt.Sprintf("(Array Int (Array %s %s))", ks, vs)))
 	x.arrSort(m.ln, "(Array Int Int)")
+	x.mu.Lock()
 	if isRefType(mt.Elem()) {
-		x.mu.Lock()
 		x.arrRefEl[m.val] = true
-		x.mu.Unlock()
 	}
+	if x.mapZero[m.val] == "" {
+		x.mu.Unlock()
+		z := x.d.zero(mt.Elem())
+		x.mu.Lock()
+		x.mapZero[m.val] = z
+	}
+	x.mu.Unlock()
 	return m
 }
 
@@ -429,7 +435,10 @@ func (x *Run) mapGet(st *State, m Val, k string) (Val, string) {
 	a := x.mapArrs(mt)
 	has := sel(sel(x.arr(st, a.dom), m.T), k)
 	raw := sel(sel(x.arr(st, a.val), m.T), k)
-	v := Val{T: ite(has, raw, x.d.zero(mt.Elem())), S: x.d.sortOf(mt.Elem()), Ty: mt.Elem(), MaybeNil: true}
+	// representation invariant of map rows: absent keys hold the zero value
+	// (established for every base / havocked row, kept by delete), so a lookup
+	// is a plain select and terms stay free of ite
+	v := Val{T: raw, S: x.d.sortOf(mt.Elem()), Ty: mt.Elem(), MaybeNil: true}
 	x.assumeType(st, Val{T: raw, S: v.S, Ty: v.Ty})
 	return v, has
 }
@@ -473,6 +482,9 @@ func (x *Run) mapDelete(st *State, m Val, k string) {
 	ln := x.arr(st, a.ln)
 	x.setArr(st, a.ln, store(ln, m.T, ite(was, fmt.Sprintf("(- %s 1)", sel(ln, m.T)), sel(ln, m.T))))
 	x.setArr(st, a.dom, store(dom, m.T, store(sel(dom, m.T), k, "false")))
+	mtD := mapTypeOf(m.Ty)
+	val := x.arr(st, a.val)
+	x.setArr(st, a.val, store(val, m.T, store(sel(val, m.T), k, x.d.zero(mtD.Elem()))))
 }
 
 func (x *Run) makeMap(st *State, ty types.Type) Val {
@@ -482,6 +494,7 @@ func (x *Run) makeMap(st *State, ty types.Type) Val {
 	ref := intLit(int64(-st.nfresh))
 	ks := x.d.sortOf(mt.Key())
 	x.setArr(st, a.dom, store(x.arr(st, a.dom), ref, fmt.Sprintf("((as const (Array %s Bool)) false)", ks)))
+	x.setArr(st, a.val, store(x.arr(st, a.val), ref, fmt.Sprintf("((as const (Array %s %s)) %s)", ks, x.d.sortOf(mt.Elem()), x.d.zero(mt.Elem()))))
 	x.setArr(st, a.ln, store(x.arr(st, a.ln), ref, "0"))
 	return Val{T: ref, S: SInt, Ty: ty, Fresh: true}
 }
@@ -497,6 +510,7 @@ func (x *Run) havocMapContents(st *State, m Val) {
 	fd := x.d.fresh("hdom", Sort(fmt.Sprintf("(Array %s Bool)", ks)))
 	fv := x.d.fresh("hval", Sort(fmt.Sprintf("(Array %s %s)", ks, vs)))
 	fl := x.d.fresh("hlen", SInt)
+	x.d.raw("ax.zero."+fv, fmt.Sprintf("(assert (forall ((k %s)) (! (=> (not (select %s k)) (= (select %s k) %s)) :pattern ((select %s k)))))", ks, fd, fv, x.d.zero(mt.Elem()), fv))
 	x.setArr(st, a.dom, store(x.arr(st, a.dom), m.T, fd))
 	x.setArr(st, a.val, store(x.arr(st, a.val), m.T, fv))
 	x.setArr(st, a.ln, store(x.arr(st, a.ln), m.T, fl))
